@@ -248,6 +248,39 @@ void run_potrf(Case const& c) {
 	A.snapshot();
 	c14_log_clear();
 	idx ret_r = -1, ret_c = -1; int info = -1; bool colbranch = false;
+	if(c.form >= 100) {  // iterator-level potrf on the leading sub-range [begin, begin + k) of a row-major view
+		idx const kr = c.form - 100;
+		idx ret = -1;
+		with_view(A, o, [&](auto& v) {
+			auto last = multi::lapack::potrf(c.upper ? multi::lapack::filling::upper : multi::lapack::filling::lower, v.begin(), v.begin() + kr);
+			ret = last - v.begin();
+			print_log(c.id, reg);
+			if(c14_log_size() > 0) { info = c14_log_at(c14_log_size() - 1)->info; }
+			std::cout << "I " << c.id << " info=" << info << '\n';
+			std::cout << "R " << c.id << " ret=" << ret << '\n';
+		});
+		mon(c.id, "one-call", c14_log_size() == 1, "calls=" + std::to_string(c14_log_size()));
+		idx const expect_i = (c.kind == "minor" && c.minor <= kr) ? c.minor : 0;
+		mon(c.id, "info-as-constructed", info == expect_i, "info=" + std::to_string(info) + " expected=" + std::to_string(expect_i));
+		idx const kk = info == 0 ? kr : std::max<idx>(0, info - 1);
+		// only the selected triangle of the leading kr x kr block may change
+		idx const bad_i = A.changed_outside([&](idx off) { if(!in_view(o, off)) { return false; } auto [i, j] = coords(o, off); return i < kr && j < kr && sel(i, j); });
+		mon(c.id, "frame", bad_i == 0, "cells-changed-outside-the-range's-triangle=" + std::to_string(bad_i));
+		double res_i = 0; bool fin_i = true;
+		auto Ti = [&](idx i, idx j) { return A.root()[off2(o, i, j)]; };
+		for(idx a = 0; a != kk; ++a) {
+			for(idx b = 0; b != kk; ++b) {
+				double s = 0;
+				for(idx l = 0; l <= std::min(a, b); ++l) { s += c.upper ? Ti(l, a) * Ti(l, b) : Ti(a, l) * Ti(b, l); }
+				if(!std::isfinite(s)) { fin_i = false; }
+				res_i = std::max(res_i, std::fabs(s - S[a * n + b]));
+			}
+		}
+		double const tol_i = TOLC * static_cast<double>(std::max<idx>(n, 1)) * EPS * std::max(1.0, maxabs(S));
+		mon(c.id, "reconstruct", fin_i && res_i <= tol_i, "resid=" + num(res_i) + " tol=" + num(tol_i) + " k=" + std::to_string(kk));
+		mon(c.id, "returned-iterator", ret == kk, "ret=" + std::to_string(ret) + " k=" + std::to_string(kk));
+		return;
+	}
 	with_view(A, o, [&](auto& v) {
 		colbranch = (v.stride() == 1);
 		auto&& R = multi::lapack::potrf(c.upper ? multi::lapack::filling::upper : multi::lapack::filling::lower, v);
